@@ -76,6 +76,17 @@ enum Msg {
     Eof(usize, Option<i32>, Option<i32>),
 }
 
+static CHILD_PIDS: std::sync::Mutex<Vec<u32>> = std::sync::Mutex::new(Vec::new());
+
+fn kill_children() {
+    for pid in CHILD_PIDS.lock().unwrap().drain(..) {
+        unsafe {
+            libc::kill(pid as i32, libc::SIGKILL);
+        }
+        let _ = std::fs::remove_dir_all(format!("/dev/shm/bcsim.{}", pid));
+    }
+}
+
 struct Worker {
     in_progress: Option<u64>,
     last_fatal: Option<serde_json::Value>,
@@ -94,6 +105,7 @@ fn spawn_worker(tx: &mpsc::Sender<Msg>, w: usize, check: &str, tier: &str, seed:
         .expect("spawn worker");
     let out = child.stdout.take().unwrap();
     let tx = tx.clone();
+    CHILD_PIDS.lock().unwrap().push(child.id());
     std::thread::spawn(move || {
         let rd = BufReader::new(out);
         for line in rd.lines() {
@@ -108,6 +120,7 @@ fn spawn_worker(tx: &mpsc::Sender<Msg>, w: usize, check: &str, tier: &str, seed:
         }
         let pid = child.id();
         let st = child.wait().ok();
+        CHILD_PIDS.lock().unwrap().retain(|p| *p != pid);
         // a worker that died inside a run could not clean up its scratch directory
         let _ = std::fs::remove_dir_all(format!("/dev/shm/bcsim.{}", pid));
         let code = st.and_then(|s| s.code());
@@ -226,7 +239,9 @@ pub fn supervise(args: &[String]) -> i32 {
         let msg = match rx.recv_timeout(std::time::Duration::from_secs_f64(budget + 120.0)) {
             Ok(m) => m,
             Err(_) => {
-                agg.harness_errors.push("supervisor timed out waiting for workers".into());
+                let stuck: Vec<String> = ws.iter().enumerate().filter_map(|(w, x)| x.in_progress.map(|i| format!("worker {} in run {}", w, i))).collect();
+                agg.harness_errors.push(format!("supervisor timed out waiting for workers ({})", stuck.join(", ")));
+                kill_children();
                 break;
             }
         };
